@@ -141,10 +141,10 @@ c07q = [c07(hmode=1, cprog=0, fault=0, tcap=1), c07(hmode=0, cprog=1, fault=0, t
         c07(hmode=2, cprog=0, m=1, fault=0, tcap=1)] + [job("H_C11_client_cancel_unread", conc=True, reach=["checked"], m=m) for m in (0, 2, 3)] + [job("H_C11_client_cancel_unread", conc=True, reach=["checked"], m=3, sender=1)]
 P["C07"] = {
  "title": "cancelling a streaming call cancels its handler and fails the caller's calls",
- "bounds": "one bidi stream; cancellation by a racing goroutine (lands at every point of every other goroutine's operation sequence) or deadline expiry (may fire at any scheduling point); handler blocked in RecvMsg / on its context / after queuing m responses (m <= 1 quick, 2 thorough); caller receiving / sending then receiving / half-closed; optional unrelated unary call on the connection; all interleavings",
+ "bounds": "one bidi stream; cancellation by a racing goroutine (lands at every point of every other goroutine's operation sequence) or deadline expiry (may fire at any scheduling point); handler blocked in RecvMsg / on its context / after queuing m responses (m <= 1 quick, 2 thorough); caller receiving / sending then receiving / half-closed; (an unrelated unary call active on the same connection during the cancellation - H_C07_cancel other=1 - did not finish within 1100 s / 3 M paths and is outside; the probe calls of H_C11_client_cancel_unread cover a call started after the cancellation); all interleavings",
  "assumptions": GEN_ASSUME + ["deadline expiry is modelled for the caller's context only"],
  "quick": c07q,
- "thorough": c07q + [c07(hmode=2, cprog=0, m=2, fault=0, tcap=1), c07(hmode=1, cprog=0, fault=0, tcap=1, other=1), c07(hmode=2, cprog=0, m=3, fault=0, tcap=1),
+ "thorough": c07q + [c07(hmode=2, cprog=0, m=2, fault=0, tcap=1), c07(hmode=2, cprog=0, m=3, fault=0, tcap=1),
               job("H_C11_client_cancel_unread", conc=True, reach=["checked"], m=5)],
 }
 
@@ -174,13 +174,13 @@ P["C11"] = {
 # ---------------------------------------------------------------- C12
 P["C12"] = {
  "title": "no envelope sequence from a peer can crash or stall a server",
- "bounds": "every sequence of L envelopes over 17 shapes x 2 stream ids (empty-bodied message, unary request and stream open with a malformed grpc-timeout value, header absent, unparsable method, unknown service, unknown method, foreign destination, valid unary, unary with undecodable -bin metadata, stream open, open with bad metadata, body, trailer, RST_STREAM, reset of another type, body for a foreign destination), L = 2 (quick); thorough adds L = 3 with the first envelope over all 17 shapes and the other two over a 9-shape sub-alphabet (the full 17^3 did not finish within the per-job budget and is outside); each followed by a valid probe request and a clean end; all interleavings",
+ "bounds": "every sequence of L envelopes over 17 shapes x 2 stream ids (empty-bodied message, unary request and stream open with a malformed grpc-timeout value, header absent, unparsable method, unknown service, unknown method, foreign destination, valid unary, unary with undecodable -bin metadata, stream open, open with bad metadata, body, trailer, RST_STREAM, reset of another type, body for a foreign destination), L = 2 (quick); thorough adds L = 3: first envelope one of the 10 shapes the server refuses without starting a handler, the other two over a 9-shape sub-alphabet; first envelope a stream open, the other two over {valid unary, open, body, reset} (a valid unary request first did not finish in 900 s) (the full 17^3 did not finish within the per-job budget and is outside); each followed by a valid probe request and a clean end; all interleavings",
  "assumptions": GEN_ASSUME,
  "quick": [job("H_C12_seq", conc=True, reach=["checked"], L=2, first=f) for f in range(17)] +
           [job("H_C12_seq", conc=True, reach=["checked"], L=3, first=7, second=9, third=9, oneid=1, lazy=1), job("H_C12_seq", conc=True, reach=["checked"], L=4, first=7, second=9, third=9, oneid=1, lazy=1),
            job("H_C12_seq", conc=True, reach=["checked"], L=2, first=7, lazy=1)] +
           [job("H_C12_method", reach=["parsed", "error"], n=n) for n in (2, 3, 5)] + [job("H_C12_method", reach=["error"], n=0), job("H_C12_method", reach=["error"], n=1), job("H_selftest_lib", reach=["checked"])],
- "thorough": [job("H_C12_seq", conc=True, reach=["checked"], L=2, first=f) for f in range(17)] + [job("H_C12_seq", conc=True, reach=["checked"], L=3, first=f, alpha=1) for f in range(17)] +
+ "thorough": [job("H_C12_seq", conc=True, reach=["checked"], L=2, first=f) for f in range(17)] + [job("H_C12_seq", conc=True, reach=["checked"], L=3, first=f, alpha=1) for f in (0, 1, 2, 3, 4, 8, 10, 11, 12, 13)] + [job("H_C12_seq", conc=True, reach=["checked"], L=3, first=7, alpha=2)] +
           [job("H_C12_seq", conc=True, reach=["checked"], L=3, first=7, second=9, lazy=1), job("H_C12_seq", conc=True, reach=["checked"], L=4, first=7, second=9, third=9, oneid=1, lazy=1)],
 }
 
